@@ -136,6 +136,40 @@ def step (_ : Unit) (toks : List String) : IO (Unit × Bool) := do
   let (op, ann) := splitBar toks
   let bad : IO (Unit × Bool) := do IO.println "bad-op"; return ((), false)
   match op with
+  -- NULL pointer arguments (protocol: head of harness/sockaddr.c)
+  | ["fromnative", "null", n] =>
+    match natTok n (2 ^ 20) with
+    | some n => return ((), ← finish (newFromNativeP none n >>= dumpOpt false) (some (.ok "none")))
+    | none => bad
+  | ["new", "null", p] =>
+    match natTok p 65535 with
+    | some p => return ((), ← finish (newP (platformOf { str := [], p4 := none, p6 := none, gai := none, text := "" } []) none (UInt16.ofNat p) >>= dumpOpt false) (some (.ok "none")))
+    | none => bad
+  | ["tonative", "null", dl] =>
+    match natTok dl (2 ^ 20) with
+    | some dl =>
+      let m : Res String := do
+        let (ok, d) ← toNativeP none (some (pattern dl)) dl
+        return if ok then "ok " ++ hexOr (d.getD []) else if d = some (pattern dl) then "fail" else "PARTIAL-WRITE " ++ hexOr (d.getD [])
+      return ((), ← finish m (some (.ok "fail")))
+    | none => bad
+  | ["getnull"] =>
+    let P := platformOf { str := [], p4 := none, p6 := none, gai := none, text := "" } []
+    let txt := match getAddressP P none with | none => "NULL" | some t => hexOr t
+    let setOk := setFlowInfoP none 7 == none && setScopeIdP none 9 == none
+    IO.println s!"size={nativeSizeP none} fam={familyP none} text={txt} port={(portP none).toNat} flow={(flowInfoP none).toNat} scope={(scopeIdP none).toNat} any={b01 (isAnyP none)} loop={b01 (isLoopbackP none)} set={b01 setOk}"
+    return ((), false)
+  | "tonative" :: "nulldest" :: rest =>
+    match parseAddr rest with
+    | some (a, [dl]) =>
+      match natTok dl (2 ^ 20) with
+      | some dl =>
+        let m : Res String := do
+          let (ok, d) ← toNativeP (some a) none dl
+          return if ok || d.isSome then "ok-or-write" else "fail"
+        return ((), ← finish m (some (.ok "fail")))
+      | none => bad
+    | _ => bad
   | ["fromnative", h] =>
     match bytesOfHex h with
     | none => bad
